@@ -534,4 +534,110 @@ theorem insertAll_nodup : ∀ (ds : List (Key × DKind)) (t t' : Table),
       simp only [hi] at h
       exact ih t1 t' (insertDecl_nodup t t1 k dk hn hi) h
 
+/-! a whole sequence of insertions -/
+
+theorem lookup_map_replace (t : Table) (k k' : Key) (new : DKind) (hne : k' ≠ k) :
+    (t.map fun e => if e.1 = k then (k, new) else e).lookup k' = t.lookup k' := by
+  induction t with
+  | nil => rfl
+  | cons e rest ih =>
+    obtain ⟨ke, de⟩ := e
+    simp only [List.map_cons]
+    by_cases hke : ke = k
+    · subst hke
+      have h1 : (k' == ke) = false := by simpa using hne
+      simp [List.lookup, h1, ih]
+    · simp only [hke, ↓reduceIte, List.lookup]
+      cases (k' == ke) <;> simp [ih]
+
+theorem lookup_map_replace_self (t : Table) (k : Key) (new old : DKind) (h : t.lookup k = some old) :
+    (t.map fun e => if e.1 = k then (k, new) else e).lookup k = some new := by
+  induction t with
+  | nil => simp [List.lookup] at h
+  | cons e rest ih =>
+    obtain ⟨ke, de⟩ := e
+    simp only [List.map_cons]
+    by_cases hke : ke = k
+    · subst hke; simp [List.lookup]
+    · have h1 : (k == ke) = false := by simpa using fun hh : k = ke => hke hh.symm
+      simp only [List.lookup, h1] at h
+      simp only [hke, ↓reduceIte, List.lookup, h1]
+      exact ih h
+
+/-- an accepted insertion leaves its declaration under its key and does not touch the other keys -/
+theorem insertDecl_lookup (t t' : Table) (k : Key) (new : DKind) (h : insertDecl t k new = some t') :
+    t'.lookup k = some new ∧ ∀ k', k' ≠ k → t'.lookup k' = t.lookup k' := by
+  unfold insertDecl at h
+  cases hl : t.lookup k with
+  | none =>
+    simp only [hl, Option.some.injEq] at h
+    subst h
+    refine ⟨by simp [List.lookup], ?_⟩
+    intro k' hne
+    have : (k' == k) = false := by simpa using hne
+    simp [List.lookup, this]
+  | some old =>
+    simp only [hl] at h
+    by_cases hu : (!insertModelled || updateIf new old) = true
+    · simp only [hu, ↓reduceIte, Option.some.injEq] at h
+      subst h
+      exact ⟨lookup_map_replace_self t k new old hl, fun k' hne => lookup_map_replace t k k' new hne⟩
+    · simp [hu] at h
+
+/-- once a key holds a declaration that is not a forward stub, no later insertion names it -/
+theorem insertAll_defined_blocks : ∀ (ds : List (Key × DKind)) (t t' : Table) (k : Key) (d : DKind),
+    insertAll t ds = some t' → t.lookup k = some d → isStub d = false → ∀ x ∈ ds, x.1 ≠ k := by
+  intro ds
+  induction ds with
+  | nil => intro t t' k d _ _ _ x hx; cases hx
+  | cons y rest ih =>
+    intro t t' k d h hl hs x hx
+    obtain ⟨ky, dy⟩ := y
+    simp only [insertAll] at h
+    cases hi : insertDecl t ky dy with
+    | none => simp [hi] at h
+    | some t1 =>
+      simp only [hi] at h
+      have hky : ky ≠ k := by
+        intro he; subst he
+        have := (insertDecl_occupied t ky d dy hl).1 hs
+        rw [this] at hi; cases hi
+      rcases List.mem_cons.1 hx with hx | hx
+      · subst hx; exact hky
+      · have hl1 : t1.lookup k = some d := by
+          rw [(insertDecl_lookup t t1 ky dy hi).2 k (fun he => hky he.symm)]; exact hl
+        exact ih t1 t' k d h hl1 hs x hx
+
+theorem insertAll_append : ∀ (xs ys : List (Key × DKind)) (t t' : Table),
+    insertAll t (xs ++ ys) = some t' → ∃ t1, insertAll t xs = some t1 ∧ insertAll t1 ys = some t' := by
+  intro xs
+  induction xs with
+  | nil => intro ys t t' h; exact ⟨t, rfl, h⟩
+  | cons x r ih =>
+    intro ys t t' h
+    obtain ⟨k, d⟩ := x
+    simp only [List.cons_append, insertAll] at h ⊢
+    cases hi : insertDecl t k d with
+    | none => simp [hi] at h
+    | some t1 => simp only [hi] at h ⊢; exact ih ys t1 t' h
+
+/-- in an accepted sequence of declarations, whatever is declared again under
+    the same (scope, name) was a forward stub -/
+theorem insertAll_no_redefinition (ds : List (Key × DKind)) (t0 t : Table) (h : insertAll t0 ds = some t)
+    (pre : List (Key × DKind)) (a : Key × DKind) (rest : List (Key × DKind)) (hsplit : ds = pre ++ a :: rest)
+    (b : Key × DKind) (hb : b ∈ rest) (hk : a.1 = b.1) : isStub a.2 = true := by
+  subst hsplit
+  obtain ⟨t1, _, h2⟩ := insertAll_append pre (a :: rest) t0 t h
+  obtain ⟨ka, da⟩ := a
+  simp only [insertAll] at h2
+  cases hi : insertDecl t1 ka da with
+  | none => simp [hi] at h2
+  | some t2 =>
+    simp only [hi] at h2
+    cases hs : isStub da with
+    | true => rfl
+    | false =>
+      have := insertAll_defined_blocks rest t2 t ka da h2 (insertDecl_lookup t1 t2 ka da hi).1 hs b hb
+      exact absurd hk.symm this
+
 end RotoV.TcRules
